@@ -253,6 +253,7 @@ def run_property(prop, tier, seed, root):
             if getattr(c, "no_bounded", False):
                 continue
             bad_here = 0
+            bad_where = {}
             for inst in (c.instances if n_per else []):
                 for t in range(n_per):
                     nm = ConcNamer(rng=rng)
@@ -278,11 +279,19 @@ def run_property(prop, tier, seed, root):
                     if r["status"] == "mismatch":
                         bounded["mismatches"] += 1
                         bad_here += 1
-                        if bad_here <= 3:
-                            where = re.sub(r"\[\d+(, \d+)*\]", "[]", r["mismatches"][0].split(":")[0])
-                            detail = {"obligation": f"{prop}/{c.qualname.replace('pulsarbat.', '')}/bounded.{where}", "function": c.qualname,
-                                      "instance": inst.label, "verdict": "bounded-failure", "reproduced": True, "replay": r}
-                            out_findings.append(Finding(prop, "bounded", c.qualname, inst.label, f"bounded.{where}", detail))
+                        # one finding per distinct clause that failed (not only the first one listed, and not only the
+                        # first evaluations: failures of a known finding must not crowd out a different failure)
+                        wheres = []
+                        for m_ in r["mismatches"]:
+                            w_ = re.sub(r"\[\d+(, \d+)*\]", "[]", m_.split(":")[0])
+                            if w_ not in wheres:
+                                wheres.append(w_)
+                        for where in wheres[:6]:
+                            bad_where[where] = bad_where.get(where, 0) + 1
+                            if bad_where[where] <= 3:
+                                detail = {"obligation": f"{prop}/{c.qualname.replace('pulsarbat.', '')}/bounded.{where}", "function": c.qualname,
+                                          "instance": inst.label, "verdict": "bounded-failure", "reproduced": True, "replay": r}
+                                out_findings.append(Finding(prop, "bounded", c.qualname, inst.label, f"bounded.{where}", detail))
         for fn in cfg.get("bounded_extra", []):
             try:
                 with warnings.catch_warnings():
